@@ -35,6 +35,48 @@ impl FilesystemStore {
 	}
 }
 
+/// Verification hook H7 (see [`crate::verif`]): the asynchronous API's "take the version now,
+/// execute later" split without an executor, and the size of the lock map.
+#[cfg(feature = "_verif_hooks")]
+impl FilesystemStore {
+	/// First (synchronous) half of [`KVStore::write`]: `write_async` up to the returned future.
+	///
+	/// [`KVStore::write`]: lightning::util::persist::KVStore::write
+	pub fn verif_begin_write(
+		&self, primary_namespace: &str, secondary_namespace: &str, key: &str,
+	) -> Result<crate::verif::VerifTicket, lightning::io::Error> {
+		self.state.verif_begin(primary_namespace, secondary_namespace, key, "write", false)
+	}
+
+	/// First (synchronous) half of [`KVStore::remove`].
+	///
+	/// [`KVStore::remove`]: lightning::util::persist::KVStore::remove
+	pub fn verif_begin_remove(
+		&self, primary_namespace: &str, secondary_namespace: &str, key: &str,
+	) -> Result<crate::verif::VerifTicket, lightning::io::Error> {
+		self.state.verif_begin(primary_namespace, secondary_namespace, key, "remove", false)
+	}
+
+	/// Second half of a write: what the future executes on the blocking pool.
+	pub fn verif_finish_write(
+		&self, ticket: crate::verif::VerifTicket, buf: Vec<u8>,
+	) -> Result<(), lightning::io::Error> {
+		self.state.verif_finish_write(ticket, buf)
+	}
+
+	/// Second half of a removal: what the future executes on the blocking pool.
+	pub fn verif_finish_remove(
+		&self, ticket: crate::verif::VerifTicket, lazy: bool,
+	) -> Result<(), lightning::io::Error> {
+		self.state.verif_finish_remove(ticket, lazy)
+	}
+
+	/// Number of entries in the per-path lock map.
+	pub fn verif_state_size(&self) -> usize {
+		self.state.verif_state_size()
+	}
+}
+
 impl KVStoreSync for FilesystemStore {
 	fn read(
 		&self, primary_namespace: &str, secondary_namespace: &str, key: &str,
